@@ -32,7 +32,25 @@ macro_rules! impl_width {
 }
 impl_width!(Sqrt, Rice, Sturges, FreedmanDiaconis, Auto);
 
+/// libm values the width formulas use for `n` observations (recorded for the model, which takes
+/// them as an oracle table): powf(n, 1/3) and log2(n)
+fn libm_section(n: usize) -> String {
+    #[allow(clippy::cast_precision_loss)]
+    let x = n as f64;
+    format!("M {} {}", x.powf(1. / 3.).to_bits(), x.log2().to_bits())
+}
+
 fn do_strategy<T, S>(parent: &Parent<T>) -> String
+where
+    T: Elem + Ord,
+    S: BinsBuildingStrategy<Elem = T> + Width<T>,
+{
+    let n = parent.view().len();
+    let r = do_strategy_inner::<T, S>(parent);
+    format!("{} | {} | {}", r, libm_section(n), pivot_log())
+}
+
+fn do_strategy_inner<T, S>(parent: &Parent<T>) -> String
 where
     T: Elem + Ord,
     S: BinsBuildingStrategy<Elem = T> + Width<T>,
@@ -83,7 +101,16 @@ where
                 let proj: Vec<String> = grid.projections().iter().map(|b| show_bins(b)).collect();
                 let h = v.histogram(grid);
                 let total: usize = h.counts().iter().sum();
-                format!("OK {} | {} | {} | {}", show_usizes(&shape), total, proj.len(), proj.join(" | "))
+                let counts: Vec<usize> = h.counts().iter().cloned().collect();
+                format!(
+                    "OK {} | {} | {} | {} | C {} | {}",
+                    show_usizes(&shape),
+                    total,
+                    proj.len(),
+                    proj.join(" | "),
+                    show_usizes(h.counts().shape()),
+                    show_usizes(&counts)
+                )
             }
         }
     });
@@ -95,6 +122,15 @@ where
     T: Elem + Ord + FromPrimitive + NumOps + Zero,
 {
     let parent: Parent<T> = Parent::parse(t);
+    // optional pivot mode for the selections inside FreedmanDiaconis / Auto (default: drawn pivots)
+    match t.try_next() {
+        Some("|") => install_pivots(t),
+        Some(x) => panic!("unexpected token {}", x),
+        None => {
+            let mut d = Toks::new("R");
+            install_pivots(&mut d)
+        }
+    }
     match (routine, name) {
         ("strategy", "sqrt") => do_strategy::<T, Sqrt<T>>(&parent),
         ("strategy", "rice") => do_strategy::<T, Rice<T>>(&parent),
